@@ -25,7 +25,7 @@ def replay_cases(ctx, pool, recs, tag="d"):
 
 
 def run(ctx):
-    ctx.rule = ("every set of up to MaxRules entries of a 40-entry pool: hosts lines (IPv4, IPv6, IPv4-mapped, two names with comment, "
+    ctx.rule = ("every set of up to MaxRules entries of a 41-entry pool: hosts lines (IPv4, IPv6, IPv4-mapped, two names with comment, "
                 "bare domain, entries for a hostname that genuinely collides under djb2), DNS-applicable network rules (block, exception, "
                 "important both ways, $dnsrewrite, $badfilter twin, $dnstype, $client, $ctag, $denyallow, one-sided content type) and "
                 "browser-only rules that would match if loaded ($match-case, $~third-party, $domain=~x, @@$document, two-sided content "
